@@ -19,13 +19,14 @@ VARIABLE i
 Ct(e)  == e.op = "divrem" /\ e.form = "uint.div_rem" /\ e.nb = e.db /\ e.nb >= 128 /\ e.nb <= 512 /\ e.k = "ok" /\ e.d # <<>>
 Vt(e)  == e.op = "divrem" /\ e.form = "uint.div_rem_vartime" /\ e.nb = e.db /\ e.nb >= 128 /\ e.nb <= 512 /\ e.k = "ok" /\ e.d # <<>>
 Lb(e)  == e.op = "divrem" /\ e.form = "uint.div_rem_limb" /\ e.nb <= 512 /\ e.k = "ok" /\ e.d # <<>>
+Rw(e)  == e.op = "divrem" /\ e.form = "uint.rem_wide_vartime" /\ e.db >= 128 /\ e.db <= 512 /\ e.nb = 2 * e.db /\ e.k = "ok" /\ e.d # <<>>
 Sig(d) == (K!BitLen(d) + 63) \div 64                       \* significant words of the divisor
 
 Count(path, idx) == LET RECURSIVE C(_) C(j) == IF j = 0 THEN 0 ELSE (IF path[j][idx] = TRUE THEN 1 ELSE 0) + C(j - 1) IN C(Len(path))
 Corr(path) == LET RECURSIVE C(_) C(j) == IF j = 0 THEN 0 ELSE path[j][2] + C(j - 1) IN C(Len(path))
 
 Bump(r, v) == TLCSet(r, TLCGet(r) + v)
-Init == i = 1 /\ TLCSet(1, 0) /\ TLCSet(2, 0) /\ TLCSet(3, 0) /\ TLCSet(4, 0) /\ TLCSet(5, 0) /\ TLCSet(6, 0) /\ TLCSet(7, 0) /\ TLCSet(8, 0) /\ TLCSet(9, 0) /\ TLCSet(10, 0)
+Init == i = 1 /\ TLCSet(1, 0) /\ TLCSet(2, 0) /\ TLCSet(3, 0) /\ TLCSet(4, 0) /\ TLCSet(5, 0) /\ TLCSet(6, 0) /\ TLCSet(7, 0) /\ TLCSet(8, 0) /\ TLCSet(9, 0) /\ TLCSet(10, 0) /\ TLCSet(11, 0) /\ TLCSet(12, 0) /\ TLCSet(13, 0)
 Step ==
   /\ i <= Len(Rec)
   /\ LET e == Rec[i] IN
@@ -46,8 +47,16 @@ Step ==
           /\ Bump(8, IF o.corr[1] > 0 THEN 1 ELSE 0)             \* ... with a first 2-by-1 correction
           /\ Bump(9, IF o.corr[2] > 0 THEN 1 ELSE 0)             \* ... with the (rare) second 2-by-1 correction
           /\ IF o.q = e.q /\ o.r = e.r THEN TRUE ELSE Bump(5, 1) /\ PrintT(<<"SPEC-DRIFT", i>>)
+     ELSE IF Rw(e) THEN
+       LET L == e.db \div 64
+           nw == K!Words(e.n, 2 * L)
+           o == K!RemWideVartime(SubSeq(nw, 1, L), SubSeq(nw, L + 1, 2 * L), K!Words(e.d, L), L)
+       IN /\ Bump(11, 1)                                         \* wide remainders evaluated
+          /\ Bump(12, IF Count(o.path, 3) > 0 THEN 1 ELSE 0)     \* ... that take add-back
+          /\ Bump(13, IF Sig(e.d) = 1 THEN 1 ELSE 0)             \* ... with a single-word divisor (div2by1 chain)
+          /\ IF o.r = e.r THEN TRUE ELSE Bump(5, 1) /\ PrintT(<<"SPEC-DRIFT", i>>)
      ELSE TRUE
   /\ i' = i + Stride
 Spec == Init /\ [][Step]_i
-Done == PrintT(<<"PATHS", TLCGet(1), TLCGet(2), TLCGet(3), TLCGet(4), TLCGet(5), TLCGet(6)>>) /\ PrintT(<<"LIMBPATHS", TLCGet(7), TLCGet(8), TLCGet(9)>>) /\ PrintT(<<"TOPONLY", TLCGet(10)>>)
+Done == PrintT(<<"PATHS", TLCGet(1), TLCGet(2), TLCGet(3), TLCGet(4), TLCGet(5), TLCGet(6)>>) /\ PrintT(<<"LIMBPATHS", TLCGet(7), TLCGet(8), TLCGet(9)>>) /\ PrintT(<<"TOPONLY", TLCGet(10)>>) /\ PrintT(<<"REMWIDE", TLCGet(11), TLCGet(12), TLCGet(13)>>)
 =============================================================================
